@@ -149,7 +149,13 @@ def check_deserialization(file_path: str, state_manager: ComplianceToolStateMana
             state_manager.add_step('Read file {} and check if it is deserializable'.format(file_info))
         else:
             state_manager.add_step('Read file and check if it is deserializable')
-        obj_store = json_deserialization.read_aas_json_file(file_to_be_checked, failsafe=True)
+        try:
+            obj_store = json_deserialization.read_aas_json_file(file_to_be_checked, failsafe=True)
+        except (json.decoder.JSONDecodeError, UnicodeDecodeError) as error:
+            # not a JSON document at all: even the failsafe reader cannot skip over that
+            state_manager.set_step_status(Status.FAILED)
+            logger.error(error)
+            return model.DictObjectStore()
 
     state_manager.set_step_status_from_log()
 
